@@ -9,6 +9,7 @@ pub mod hs;
 pub mod node;
 mod nc09;
 mod nodefam;
+mod nfwd;
 mod codec;
 mod beacon;
 mod keys;
@@ -32,6 +33,8 @@ fn dispatch(args: &[String]) -> i32 {
         ("hs", "sched") => hs::run_sched(a(3), a(4), a(5), a(6)),
         ("hs", "random") => hs::run_random(n(3), n(4), a(5), a(6), a(7)),
         ("node", "c09") => nc09::run(a(3), a(4)),
+        ("node", "fwdsched") => nfwd::run_sched(a(3), a(4), a(5)),
+        ("node", "fwdrandom") => nfwd::run_random(n(3), n(4), a(5), a(6), n(7) as usize),
         ("node", "fam") => nodefam::run_fam(a(3), a(4), a(5)),
         ("node", "trust") => nodefam::run_trust(a(3), a(4)),
         ("codec", _) => codec::run(&args[2..]),
